@@ -351,6 +351,106 @@ MUTANTS = [
       "    mac = hashutil.hmac(child_key, child_salt + crypttext)\n"
       "    assert len(mac) == 32\n"
       "    return child_salt + crypttext + mac\n", None),
+    # ---- C18.11 every child handed out was made for this node
+    M("unpack-memo-keyed-by-contents", D,
+      "        writeable = not self.is_readonly()\n        mutable = self.is_mutable()\n        children = AuxValueDict()\n",
+      "        cachekey = (self.get_storage_index(), hashutil.tagged_hash(b\"unpack-memo\", data))\n"
+      "        cached = _unpack_memo.get(cachekey)\n"
+      "        if cached is not None:\n"
+      "            return _copy_children(cached)\n"
+      "        writeable = not self.is_readonly()\n        mutable = self.is_mutable()\n        children = AuxValueDict()\n",
+      "C18.11",
+      edits=[(D, "ZERO_LEN_NETSTR=netstring(b'')\n",
+              "ZERO_LEN_NETSTR=netstring(b'')\n_unpack_memo = {}\n\n"
+              "def _copy_children(children):\n    copied = AuxValueDict()\n    for name in children:\n"
+              "        copied.set_with_aux(name, children[name], children.get_aux(name))\n    return copied\n\n"),
+             (D, "                               facility=\"tahoe.webish\", level=log.UNUSUAL)\n\n        return children\n",
+              "                               facility=\"tahoe.webish\", level=log.UNUSUAL)\n\n"
+              "        _unpack_memo[cachekey] = _copy_children(children)\n        return children\n")],
+      note="seeded C18-G: the memo is consulted before, and keyed without, the writeability of the unpacking node"),
+    M("unpack-memo-behind-helper", D,
+      "        writeable = not self.is_readonly()\n        mutable = self.is_mutable()\n        children = AuxValueDict()\n",
+      "        known = _recall_unpacked(self.get_storage_index(), data)\n"
+      "        if known is not None:\n"
+      "            return known\n"
+      "        writeable = not self.is_readonly()\n        mutable = self.is_mutable()\n        children = AuxValueDict()\n",
+      "C18.11",
+      edits=[(D, "ZERO_LEN_NETSTR=netstring(b'')\n",
+              "ZERO_LEN_NETSTR=netstring(b'')\n_unpacked_versions = {}\n\n"
+              "def _recall_unpacked(si, data):\n    hit = _unpacked_versions.get(si)\n"
+              "    if hit is not None and hit[0] == data:\n        return hit[1]\n    return None\n\n"),
+             (D, "                               facility=\"tahoe.webish\", level=log.UNUSUAL)\n\n        return children\n",
+              "                               facility=\"tahoe.webish\", level=log.UNUSUAL)\n\n"
+              "        _unpacked_versions[self.get_storage_index()] = (data, children)\n        return children\n")],
+      note="same effect, the lookup hidden in a module-level helper that is not told who asks"),
+    M("child-memo-on-nodemaker", D,
+      "                child = self._create_and_validate_node(rw_uri, ro_uri, name)\n"
+      "                if mutable or child.is_allowed_in_immutable_directory():\n",
+      "                child = self._nodemaker.unpacked_children.get(entry)\n"
+      "                if child is None:\n"
+      "                    child = self._create_and_validate_node(rw_uri, ro_uri, name)\n"
+      "                    self._nodemaker.unpacked_children[entry] = child\n"
+      "                if mutable or child.is_allowed_in_immutable_directory():\n", "C18.11",
+      edits=[(NM, "        self._node_cache = weakref.WeakValueDictionary() # uri -> node\n",
+              "        self._node_cache = weakref.WeakValueDictionary() # uri -> node\n        self.unpacked_children = {}\n")],
+      note="seeded C19-G in another spelling: the packed entry is the same for the read-only and the writeable view"),
+    M("factory-memo-keyed-by-readcap", D,
+      "        node = self._nodemaker.create_from_cap(rw_uri, ro_uri,\n"
+      "                                               deep_immutable=not self.is_mutable(),\n"
+      "                                               name=name)\n        node.raise_error()\n        return node\n",
+      "        node = _validated_children.get(ro_uri)\n"
+      "        if node is not None:\n            return node\n"
+      "        node = self._nodemaker.create_from_cap(rw_uri, ro_uri,\n"
+      "                                               deep_immutable=not self.is_mutable(),\n"
+      "                                               name=name)\n        node.raise_error()\n"
+      "        _validated_children[ro_uri] = node\n        return node\n", "C18.11",
+      edits=[(D, "ZERO_LEN_NETSTR=netstring(b'')\n", "ZERO_LEN_NETSTR=netstring(b'')\n_validated_children = {}\n")],
+      note="sibling site: the factory itself remembers nodes by read cap alone, so (None, ro) gets the node made for (rw, ro)"),
+    M("readonly-copy-memo", D,
+      "        return self._create_and_validate_node(None, node.get_readonly_uri(), name=name)\n",
+      "        return _diminished.setdefault(name, self._create_and_validate_node(None, node.get_readonly_uri(), name=name))\n",
+      "C18.11",
+      edits=[(D, "ZERO_LEN_NETSTR=netstring(b'')\n", "ZERO_LEN_NETSTR=netstring(b'')\n_diminished = {}\n")]),
+    M("benign-unpack-memo-keyed-by-writeability", D,
+      "        writeable = not self.is_readonly()\n        mutable = self.is_mutable()\n        children = AuxValueDict()\n",
+      "        writeable = not self.is_readonly()\n"
+      "        cachekey = (self.get_storage_index(), writeable, hashutil.tagged_hash(b\"unpack-memo\", data))\n"
+      "        cached = _unpack_memo.get(cachekey)\n"
+      "        if cached is not None:\n"
+      "            return _copy_children(cached)\n"
+      "        mutable = self.is_mutable()\n        children = AuxValueDict()\n",
+      None,
+      edits=[(D, "ZERO_LEN_NETSTR=netstring(b'')\n",
+              "ZERO_LEN_NETSTR=netstring(b'')\n_unpack_memo = {}\n\n"
+              "def _copy_children(children):\n    copied = AuxValueDict()\n    for name in children:\n"
+              "        copied.set_with_aux(name, children[name], children.get_aux(name))\n    return copied\n\n"),
+             (D, "                               facility=\"tahoe.webish\", level=log.UNUSUAL)\n\n        return children\n",
+              "                               facility=\"tahoe.webish\", level=log.UNUSUAL)\n\n"
+              "        _unpack_memo[cachekey] = _copy_children(children)\n        return children\n")],
+      note="the same memo partitioned by the writeability of the unpacking node: a read-only node is served only what a "
+           "read-only node unpacked (benign for this property)"),
+    M("benign-unpack-pair-hoisted", D,
+      "                    children[name] = (child, metadata)\n"
+      "                    children.set_with_aux(name, (child, metadata), auxilliary=entry)\n",
+      "                    pair = (child, metadata)\n"
+      "                    children[name] = pair\n"
+      "                    children.set_with_aux(name, pair, auxilliary=entry)\n", None),
+    M("benign-unpack-metadata-helper-method", D,
+      "                    metadata = json.loads(metadata_s)\n                    assert isinstance(metadata, dict)\n",
+      "                    metadata = self._parse_metadata(metadata_s)\n", None,
+      edits=[(D, "    def _create_readonly_node(self, node, name):\n",
+              "    def _parse_metadata(self, metadata_s):\n"
+              "        metadata = json.loads(metadata_s)\n        assert isinstance(metadata, dict)\n        return metadata\n\n"
+              "    def _create_readonly_node(self, node, name):\n")]),
+    M("benign-unpack-result-copied", D,
+      "                               facility=\"tahoe.webish\", level=log.UNUSUAL)\n\n        return children\n",
+      "                               facility=\"tahoe.webish\", level=log.UNUSUAL)\n\n"
+      "        result = AuxValueDict()\n        for k in children:\n"
+      "            result.set_with_aux(k, children[k], children.get_aux(k))\n        return result\n", None),
+    M("benign-factory-node-renamed", D,
+      "                                               name=name)\n        node.raise_error()\n        return node\n",
+      "                                               name=name)\n        made = node\n        made.raise_error()\n        return made\n",
+      None),
     # ---- vanished anchor
     M("vanish-decrypt", D,
       "    def _decrypt_rwcapdata(self, encwrcap):", "    def _decrypt_rwcapdataX(self, encwrcap):", "ANALYSIS-ERROR"),
